@@ -4,6 +4,7 @@ package main
 
 import (
 	"fmt"
+	"go/constant"
 	"go/token"
 	"go/types"
 	"strings"
@@ -21,7 +22,7 @@ func invokeOn(ins ssa.Instruction, method string) (*ssa.Call, ssa.Value) {
 }
 
 func checkC19(c *Ctx) {
-	c.Explanation = "Decides, on every CFG path of the two relay loops, that (R1) each successful read of n>0 bytes from one connection is followed, before the next read or return, by exactly one write of data[:n] (same buffer, same n) to the peer connection, that the buffer is fresh for every iteration (so the copy kept for the report is never overwritten), and that reads come from and writes go to the right peers, and no write deadline is armed on a relay connection while the result of the peer write is ignored (a timed-out write would drop part of a block silently); (R2) nothing between read and write, and nothing on the report side, stores into the relayed buffer; (R3) every traffic-derived string that reaches the status page (hex dumps of the last buffers, the readable form of the recent messages) passes the escape helper, and the helper replaces both '<' and '>' throughout; (R4) provenance: the message queue is fed only by the drain goroutine from the parser's output channel, and the parser's byte channel is fed only by the client relay loop with exactly the bytes data[0..n) in order; (R5) the drain loop and the stream handler cannot stop early (closed-channel exit only), and the parser side is free of run-time panics (C07 rules evaluated for the roots reachable from the proxy's goroutines), so parsing never withholds the relayed stream. R1 also requires that neither relay loop closes a connection (one direction ending does not end the other). R5 also contains all rules of C18 (the queue the parser side feeds)."
+	c.Explanation = "Decides, on every CFG path of the two relay loops, that (R1) each successful read of n>0 bytes from one connection is followed, before the next read or return, by exactly one write of data[:n] (same buffer, same n) to the peer connection, that the buffer is fresh for every iteration (so the copy kept for the report is never overwritten), and that reads come from and writes go to the right peers, and no write deadline is armed on a relay connection while the result of the peer write is ignored (a timed-out write would drop part of a block silently), nor SetLinger with a non-negative time (Close would discard accepted bytes); (R2) nothing between read and write, nothing on the report side, and no module function reachable from the proxy package stores, copies or appends in place into a byte buffer it did not allocate; (R3) every traffic-derived string that reaches the status page (hex dumps of the last buffers, the readable form of the recent messages) passes the escape helper, and the helper replaces both '<' and '>' throughout; (R4) provenance: the message queue is fed only by the drain goroutine from the parser's output channel, and the parser's byte channel is fed only by the client relay loop with exactly the bytes data[0..n) in order; (R5) the drain loop and the stream handler cannot stop early (closed-channel exit only), and the parser side is free of run-time panics (C07 rules evaluated for the roots reachable from the proxy's goroutines), so parsing never withholds the relayed stream. R1 also requires that neither relay loop closes a connection (one direction ending does not end the other). R5 also contains all rules of C18 (the queue the parser side feeds)."
 	c.NotDecided = "TCP semantics, partial writes by net.Conn, the HTTP layer of statusreporter, TLS; the proxy's start-up configuration paths (not traffic dependent)."
 	P := c.P
 	pkg := "apps/proxy"
@@ -145,6 +146,24 @@ func checkC19(c *Ctx) {
 							armed = true
 							c.Fail("C19-R1", label+":write-complete("+P.FnKey(g)+")", ins.Pos(), "refuted",
 								"a write deadline is set on a relay connection while the result of the peer Write is ignored: a timed-out write drops part of a block and relaying continues with a hole in the stream")
+						}
+					}
+					// SetLinger(sec >= 0) turns Close into "discard what is still queued (after sec seconds)":
+					// bytes Write has accepted, and the report has counted as relayed, never reach the peer
+					if f := staticCallee(ins); calleeIs(f, "net", "SetLinger") {
+						args := ins.(ssa.CallInstruction).Common().Args
+						neg := false
+						if len(args) == 2 {
+							if k, ok := args[1].(*ssa.Const); ok && k.Value != nil {
+								if v, ok := constant.Int64Val(k.Value); ok && v < 0 {
+									neg = true
+								}
+							}
+						}
+						if !neg {
+							armed = true
+							c.Fail("C19-R1", label+":write-complete("+P.FnKey(g)+")", ins.Pos(), "refuted",
+								"SetLinger with a non-negative time makes Close discard data that Write has accepted but TCP has not yet delivered: the tail of the relayed stream is lost")
 						}
 					}
 				})
@@ -275,6 +294,15 @@ func checkC19(c *Ctx) {
 	}
 	if nst == 0 {
 		c.OK("C19-R2", "report-side-read-only", status.Pos(), "no function of the report feed stores into a byte buffer it did not allocate")
+	}
+	// R2 (everything the relay loops and the goroutines beside them call): a helper that is handed a view
+	// of the relayed buffer — for logging, for the parser — must not store, copy or append in place into it
+	{
+		var roots []*ssa.Function
+		for _, g := range P.FuncsIn(pkg) {
+			roots = append(roots, g)
+		}
+		ruleRawBuffersReadOnly(c, "C19-R2", P.ReachableModule(roots))
 	}
 
 	// ---- R3 escaping
